@@ -114,9 +114,20 @@ fn cases_list(tier: Tier) -> Vec<Value> {
             }
         }
         v.push(json!({"kind": "float-print", "f32": f32}));
+        v.push(json!({"kind": "float-midpoints", "f32": f32}));
+        v.push(json!({"kind": "float-negative-zero", "f32": f32}));
     }
     v
 }
+
+/// decimal spellings at, just above and just below the midpoint of two adjacent float32 values (a
+/// literal must be rounded once, from the decimal text, to its type)
+pub const MIDPOINTS: [&str; 12] = [
+    "16777217.0", "16777217.000000001", "16777216.999999999",
+    "1.000000059604644775390625", "1.0000000596046447753906251", "1.0000000596046447753906249",
+    "0.5000000298023223876953125", "0.50000002980232238769531251", "0.50000002980232238769531249",
+    "33554434.0", "33554434.00000001", "33554433.99999999",
+];
 
 fn op_of(name: &str) -> BinOp {
     all_ops().into_iter().find(|o| opname(*o) == name).unwrap()
@@ -291,6 +302,32 @@ fn build(case: &Value) -> Option<(Program, String, bool)> {
             )));
             site = format!("exhaustive8;ty={};op={}", k.name(), opname(op));
         }
+        "float-midpoints" | "float-negative-zero" => {
+            let f32 = case["f32"].as_bool().unwrap();
+            let ft = if f32 { Ty::F32 } else { Ty::F64 };
+            let tos = if f32 { "float32_to_string" } else { "float64_to_string" };
+            let fl = |sp: &str| E::Float(sp.to_string(), f32, true);
+            let x = n.fresh("x");
+            items.push(fn_def("show", vec![(x, ft.clone())], Some(Ty::Unit), println(bi(tos, vec![v(x)]))));
+            if kind == "float-midpoints" {
+                for m in MIDPOINTS {
+                    b.push(st(call("show", vec![fl(m)])));
+                    // and compared with its two neighbours' shortest spellings
+                    b.push(st(println(bi("bool_to_string", vec![bin(BinOp::Eq, fl(m), fl(MIDPOINTS[(MIDPOINTS.iter().position(|q| *q == m).unwrap() / 3) * 3]))]))));
+                }
+                site = format!("float-midpoints;f32={}", f32);
+            } else {
+                // -0.0 written as a literal under unary minus, as a negated variable, and as a divisor
+                let z = n.fresh("z");
+                b.push(st(call("show", vec![E::Unary(UnOp::Neg, Box::new(fl("0.0")))])));
+                b.push(let_t(z, ft.clone(), fl("0.0")));
+                b.push(st(call("show", vec![E::Unary(UnOp::Neg, Box::new(v(z)))])));
+                b.push(st(call("show", vec![bin(BinOp::Div, fl("1.0"), E::Unary(UnOp::Neg, Box::new(fl("0.0"))))])));
+                b.push(st(call("show", vec![bin(BinOp::Div, fl("1.0"), E::Unary(UnOp::Neg, Box::new(v(z))))])));
+                b.push(st(call("show", vec![bin(BinOp::Mul, E::Unary(UnOp::Neg, Box::new(fl("0.0"))), fl("2.0"))])));
+                site = format!("float-negative-zero;f32={}", f32);
+            }
+        }
         "float-pairs" | "float-print" => {
             let f32 = case["f32"].as_bool().unwrap();
             let ft = if f32 { Ty::F32 } else { Ty::F64 };
@@ -366,7 +403,7 @@ impl Family for Numbers {
         300
     }
     fn rule(&self) -> &'static str {
-        "literals: 8 integer types x 8 spellings {0,1,max-1,max,max+1,2max,30 digits,leading zeros} x {suffixed, under unary minus, plain/annotated for int32}, and all 256 values of int8/uint8; arithmetic: all pairs of a 14-value boundary set x {+,-,*,/,<,>,<=,>=,==,!=} for 8 integer types with run-time, literal and mixed operands; negation; division by zero; printing of every boundary value; all 65536 operand pairs of int8/uint8 per operator (thorough; quick: int8 + and uint8 <); float32/float64 over a 15-value set (incl. whole numbers) with run-time, literal, literal-left and literal-right operands. oracle: accepted iff in range (typer diagnostic otherwise), printed values = wrapping/truncating reference arithmetic. non-trivial = programs whose reference output contains a wrapped, negative or boundary result; distinct = distinct source text"
+        "literals: 8 integer types x 8 spellings {0,1,max-1,max,max+1,2max,30 digits,leading zeros} x {suffixed, under unary minus, plain/annotated for int32}, and all 256 values of int8/uint8; arithmetic: all pairs of a 14-value boundary set x {+,-,*,/,<,>,<=,>=,==,!=} for 8 integer types with run-time, literal and mixed operands; negation; division by zero; printing of every boundary value; all 65536 operand pairs of int8/uint8 per operator (thorough; quick: int8 + and uint8 <); float32/float64 over a 15-value set (incl. whole numbers) with run-time, literal, literal-left and literal-right operands; literals at, just above and just below 4 float32 midpoints; negative zero written as a literal, a negated variable and a divisor. oracle: accepted iff in range (typer diagnostic otherwise), printed values = wrapping/truncating reference arithmetic. non-trivial = programs whose reference output contains a wrapped, negative or boundary result; distinct = distinct source text"
     }
     fn cases(&self, tier: Tier) -> Box<dyn Iterator<Item = Value> + '_> {
         Box::new(cases_list(tier).into_iter())
